@@ -120,7 +120,7 @@ def run_xh(case, ses):
 
 
 # ------------------------------------------------------------------ (b) dro rules
-MASKS = ['none', 'x0:z1', 'x:z', 'x1:z0,z2', 'x0:z0;x1:z2']
+MASKS = ['none', 'x0:z1', 'x:z', 'x1:z0,z2', 'x0:z0;x1:z2', 'pre-sliced x0:z0;x1:z2']
 
 
 def apply_mask(x, z, mask):
@@ -138,6 +138,12 @@ def apply_mask(x, z, mask):
     elif mask == 'x0:z0;x1:z2':
         x[0].adapt(z[0])
         x[1:].adapt(z[2:])
+        dep[0, 0] = dep[1, 2] = 1
+    elif mask == 'pre-sliced x0:z0;x1:z2':
+        # both slice objects exist BEFORE the first adapt() call
+        a_, b_ = x[0], x[1:]
+        a_.adapt(z[0])
+        b_.adapt(z[2:])
         dep[0, 0] = dep[1, 2] = 1
     return dep
 
@@ -161,7 +167,7 @@ def run_dro(case, ses):
     z3 = z3mod()
     ns = case['ns']
     for seq in case['seqs']:
-        for mask in (MASKS if ses.tier == 'thorough' or len(seq) < 2 else MASKS[:3]):
+        for mask in (MASKS if ses.tier == 'thorough' or len(seq) < 2 else MASKS[:3] + MASKS[-1:]):
             # decisions declared AFTER x with another event partition (none / one value per scenario / static): the
             # expansion of x must follow x's own declaration, not that of its neighbours
             # scenario labels: positions 0..ns-1, or shifted integer labels 1..ns given as labels / as Scen objects of an
@@ -589,6 +595,47 @@ def run_illegal(case, ses):
         x.adapt([0, 1])
         x.adapt([2, 3])
         x.adapt(0)
+    def integer_entry_affine_2d():
+        m = dro.Model(2)
+        z = m.rvar(2)
+        x = m.dvar((4, 2), vtype='IICCCCCC')
+        x[0, 1].adapt(z[0])
+
+    def integer_row_affine_2d():
+        m = dro.Model(2)
+        z = m.rvar(2)
+        x = m.dvar((2, 3), vtype='CCCIII')
+        x[1].adapt(z[0])
+    expect_raise('affine adaptation of an integer entry of a 2-D array with per-element types', integer_entry_affine_2d)
+    expect_raise('affine adaptation of the integer row of a 2-D array with per-element types', integer_row_affine_2d)
+
+    # ... and the LEGAL neighbours must be accepted (a check that refuses everything would pass the list above)
+    def expect_accept(tag, fn):
+        ses.stats.obligations += 1
+        ses.stats.kinds['legal-declaration-accepted'] = ses.stats.kinds.get('legal-declaration-accepted', 0) + 1
+        try:
+            with quiet():
+                fn()
+        except Exception as e:
+            report(ses, 'legal:' + tag, 'legal declaration refused: %s (%s: %s)' % (tag, type(e).__name__, str(e)[:60]),
+                   dict(k='illegal', tag=tag))
+            return
+        ses.stats.discharged += 1
+
+    def continuous_row_affine_2d():
+        m = dro.Model(2)
+        z = m.rvar(2)
+        x = m.dvar((2, 3), vtype='CCCIII')
+        x[0].adapt(z[0])
+        x[0, 1].adapt(z[1])
+
+    def continuous_entry_affine_1d():
+        m = dro.Model(2)
+        z = m.rvar(2)
+        x = m.dvar(3, vtype='CIB')
+        x[0].adapt(z)
+    expect_accept('affine adaptation of the continuous row of a 2-D array with per-element types', continuous_row_affine_2d)
+    expect_accept('affine adaptation of the continuous entry of a mixed 1-D array', continuous_entry_affine_1d)
     for tag, fn in [('re-declare a scenario after the partition is complete', redeclare_scenario_complete_partition),
                     ('affine adaptation of an array declared with per-element integer types', integer_array_affine),
                     ('affine adaptation of the integer entry of a mixed array', integer_entry_affine),
